@@ -13,7 +13,7 @@ WV = ("interpreter", "src/stdlib/vertcat.rs")
 
 
 def slice_for(t):
-    return c03_slice(t) + ",matrix_horzcat,matrix_vertcat"
+    return c03_slice(t)
 
 
 def extract(t):
